@@ -128,3 +128,10 @@ claim("C18",
        "the end-of-message tag is compared only with the start of a delimiter-terminated segment; packages root and session inspect raw bytes only through ValueByTag/Unmarshal with configured tags. Anchoring is decided; which of several well-anchored occurrences (duplicate tags) is chosen is not.",
   note="Trusted: go/ssa; the layout model (seq.go) for needles; bytes.Index/HasPrefix semantics.",
   design_ref="DESIGN.md §3 C18, §2 E7")
+
+claim("C11",
+  technique="static panic census over the decoder's call-graph closure; bounds obligations discharged by the Go compiler's prove pass (bounds-check report) or by a path-wise linear-inequality engine with library facts, tabled preconditions proved at call sites and a loop invariant proved by induction; variant-based termination check",
+  text="Every slice/index operation, non-comma-ok type assertion, explicit panic and integer division reachable from the decoder entry points (and from the session's inbound path down to them) is an obligation; each is discharged by the compiler's prove pass, by the linear engine on every acyclic path, or by one of three tabled exceptions with checked premises. "
+       "Every loop in that set has a variant. This is a proof of panic-freedom and termination of the decoder set relative to the trusted base below, for every byte string and every well-formed template; it is not labelled proof because of the tabled exceptions.",
+  note="Trusted: the Go compiler's prove pass; go/ssa; the library facts about bytes.Index/HasPrefix/Join, make and range encoded in checker/an/linprove.go; assumption that a template's three framing tags are distinct and its KeyValues have non-nil values. Recursion depth on templates and memory use are not decided.",
+  design_ref="DESIGN.md §3 C11, §2 E6")
